@@ -22,9 +22,18 @@ type caseT struct {
 	Seed    string `json:"seed_text"`
 	Setter  string `json:"setter"`
 	Request string `json:"request"` // "a.com/x@v1.0.0!,..." ('!' = indirect) or "./a,./b" for SetUse
+	// Alias: the request list reuses the file's own *Require values (first entry of each requested path,
+	// edited in place) instead of freshly allocated ones.
+	Alias bool `json:"request_reuses_file_entries,omitempty"`
 }
 
-func (c caseT) key() string { return c.Setter + "|" + c.Request + "|" + c.Seed }
+func (c caseT) key() string {
+	k := c.Setter + "|" + c.Request + "|" + c.Seed
+	if c.Alias {
+		k = "alias|" + k
+	}
+	return k
+}
 
 var paths = []string{"a.com/x", "b.com/y", "c.com/z"}
 
@@ -354,6 +363,17 @@ func runMod(c caseT) (msg string, out string) {
 			}
 		}()
 		f.Cleanup()
+		if c.Alias {
+			for i, rq := range req {
+				for _, own := range f.Require {
+					if own.Mod.Path == rq.Mod.Path {
+						own.Mod.Version, own.Indirect = rq.Mod.Version, rq.Indirect
+						req[i] = own
+						break
+					}
+				}
+			}
+		}
 		if c.Setter == "SetRequire" {
 			f.SetRequire(req)
 		} else {
@@ -663,6 +683,21 @@ func Run(r *fw.Run) {
 				_, out2 := runCase(c)
 				if msg == "" && out != out2 {
 					msg = fmt.Sprintf("two runs of the same call gave different files (map iteration order leaks):\n%s---\n%s", out, out2)
+				}
+				// the same request built from the file's own entries edited in place (every third seed in the
+				// quick tier): the outcome must be the same file
+				if msg == "" && rq != "" && (r.Thorough() || i%3 == 0) {
+					ca := c
+					ca.Alias = true
+					l.Execs++
+					msgA, outA := runCase(ca)
+					if msgA == "" && outA != out {
+						msgA = fmt.Sprintf("a request list that reuses the file's own entries gives a different file than the same request with fresh values:\n%s---\n%s", outA, out)
+					}
+					if msgA != "" {
+						l.Outcomes[setter+":VIOLATION"]++
+						r.Violation(ca.key(), msgA, ca)
+					}
 				}
 				if out != c.Seed {
 					l.Nontrivial++
